@@ -6216,11 +6216,20 @@ class SSHServerConnection(SSHConnection):
                (await self._validate_client_public_key(username, key_data)))
 
         if key is None:
-            return False
+            result = False
         elif msg:
-            return key.verify(String(self._session_id) + msg, signature)
+            result = key.verify(String(self._session_id) + msg, signature)
         else:
-            return True
+            result = True
+
+        if not (result and msg):
+            # Only keep the key & certificate options of a key which was
+            # actually used to authenticate, not of one which was merely
+            # queried or whose signature didn't verify
+            self._key_options = {}
+            self._cert_options = None
+
+        return result
 
     def password_auth_supported(self) -> bool:
         """Return whether or not password authentication is supported"""
